@@ -58,12 +58,19 @@ PhysLines(t) ==                                   \* lines a text-mode file iter
     IN IF u = "" THEN <<>>
        ELSE IF p[Len(p)] = "" THEN SubSeq(p, 1, Len(p) - 1) ELSE p
 
+\* sums and searches by halving: sequences of several hundred lines must not need deep recursion
+RECURSIVE SumSeq(_)
+SumSeq(s) == IF Len(s) = 0 THEN 0 ELSE IF Len(s) = 1 THEN s[1]
+             ELSE LET h == Len(s) \div 2 IN SumSeq(SubSeq(s, 1, h)) + SumSeq(SubSeq(s, h + 1, Len(s)))
+RECURSIVE FirstReaching(_, _, _, _)
+FirstReaching(lens, hint, lo, hi) ==             \* smallest k in lo..hi with lens[1]+..+lens[k] >= hint
+    IF lo = hi THEN lo
+    ELSE LET mid == (lo + hi) \div 2 IN
+         IF SumSeq(SubSeq(lens, 1, mid)) >= hint THEN FirstReaching(lens, hint, lo, mid)
+         ELSE FirstReaching(lens, hint, mid + 1, hi)
 \* readlines(hint): whole lines are read until the characters read reach the hint (Cap20K)
-RECURSIVE CapCount(_, _, _)
-CapCount(lens, hint, got) ==                      \* lens: line lengths including terminators
-    IF Len(lens) = 0 THEN 0
-    ELSE IF got + lens[1] >= hint THEN 1
-    ELSE 1 + CapCount(Tail(lens), hint, got + lens[1])
+CapCount(lens, hint) ==                           \* lens: line lengths including terminators
+    IF SumSeq(lens) < hint THEN Len(lens) ELSE FirstReaching(lens, hint, 1, Len(lens))
 Hint == 20480
 
 Stored(t) ==                                      \* gopherentry.handleeaext -> setea (files below the cap)
@@ -72,9 +79,8 @@ CodeLines(t) == SplitLines(Stored(t))             \* gopherp.getblock: getea(NAM
 
 Prefixed(ls) == [i \in 1..Len(ls) |-> " " \o ls[i]]
 
-RECURSIVE TotalLen(_)
-TotalLen(lines) == IF Len(lines) = 0 THEN 0 ELSE Len(lines[1]) + 1 + TotalLen(Tail(lines))   \* characters incl. terminators
 LineLens(lines) == [i \in 1..Len(lines) |-> Len(lines[i]) + 1]
+TotalLen(lines) == SumSeq(LineLens(lines))                         \* characters including terminators
 \* Cap20K applies to real files only: VFSZip.open returns a codecs.StreamReader whose readlines() ignores the hint
 Capped(kind, lines) == kind \in {"file", "dir"} /\ TotalLen(lines) >= Hint
 
@@ -109,7 +115,7 @@ LenHeader(size) == IF size >= 0 THEN "+" \o ToString(size) ELSE "+-2"     \* han
 \* do not end in a blank line: MC_C15 M_BigShape), everything else goes through the character-level pipeline
 CodeLinesOf(kind, s) ==
     IF TotalLen(s.lines) < Hint THEN CodeLines(TextOf(s.lines, s.nl))
-    ELSE IF Capped(kind, s.lines) THEN SubSeq(RefLines(s.lines), 1, CapCount(LineLens(s.lines), Hint, 0))
+    ELSE IF Capped(kind, s.lines) THEN SubSeq(RefLines(s.lines), 1, CapCount(LineLens(s.lines), Hint))
     ELSE RefLines(s.lines)
 
 SidecarBlocks(kind, sc) ==                         \* one block per present sidecar, configured order
